@@ -526,9 +526,17 @@ func runHistory(w *world, execs int, maxInv int) {
 		startInv, startViews, startLog, startFb := len(w.script), len(w.views), len(w.log), len(w.fbSeen)
 		doneCnt, succCnt, failCnt := 0, 0, 0
 		var doneRes outcome
-		ex := failsafe.NewExecutor[int](ps...).
-			OnSuccess(func(e failsafe.ExecutionDoneEvent[int]) { succCnt++; w.ev(9, evSuccess) }).
-			OnFailure(func(e failsafe.ExecutionDoneEvent[int]) { failCnt++; w.ev(9, evFailure) }).
+		// which completion listeners are registered: all (1st execution), only OnFailure (2nd), only OnSuccess (3rd) —
+		// a verdict must never be delivered to the listener of the other verdict, whichever subset is registered
+		lsn := n % 3
+		ex := failsafe.NewExecutor[int](ps...)
+		if lsn != 1 {
+			ex = ex.OnSuccess(func(e failsafe.ExecutionDoneEvent[int]) { succCnt++; w.ev(9, evSuccess) })
+		}
+		if lsn != 2 {
+			ex = ex.OnFailure(func(e failsafe.ExecutionDoneEvent[int]) { failCnt++; w.ev(9, evFailure) })
+		}
+		ex = ex.
 			OnDone(func(e failsafe.ExecutionDoneEvent[int]) {
 				doneCnt++
 				doneRes = outcome{e.Result, e.Error}
@@ -568,8 +576,10 @@ func runHistory(w *world, execs int, maxInv int) {
 		rstartLog := len(w.rlog)
 		rr := w.refLayer(0, x)
 		if rr.okAll {
-			w.rev(9, evSuccess)
-		} else {
+			if lsn != 1 {
+				w.rev(9, evSuccess)
+			}
+		} else if lsn != 2 {
 			w.rev(9, evFailure)
 		}
 		w.rev(9, evDone)
@@ -579,8 +589,17 @@ func runHistory(w *world, execs int, maxInv int) {
 		zzvrt.Assert(gotV == rr.o.v, "nesting: returned value is the outermost policy's result")
 		zzvrt.Assert(sameErr(gotE, rr.o.e), "nesting: returned error is the outermost policy's error")
 		zzvrt.Assert(doneCnt == 1, "events: exactly one OnDone per execution")
-		zzvrt.Assert(succCnt+failCnt == 1, "events: exactly one of OnSuccess/OnFailure per execution")
-		zzvrt.Assert((succCnt == 1) == rr.okAll, "nesting: success verdict reported to completion listeners follows the nesting")
+		wantSucc, wantFail := 0, 0
+		if rr.okAll {
+			if lsn != 1 {
+				wantSucc = 1
+			}
+		} else if lsn != 2 {
+			wantFail = 1
+		}
+		zzvrt.Assert(succCnt+failCnt <= 1, "events: exactly one of OnSuccess/OnFailure per execution")
+		zzvrt.Assert(succCnt == wantSucc, "nesting: success verdict reported to completion listeners follows the nesting")
+		zzvrt.Assert(failCnt == wantFail, "nesting: failure verdict reported to completion listeners follows the nesting")
 		zzvrt.Assert(doneRes.v == gotV, "events: OnDone carries the returned result")
 		zzvrt.Assert(sameErr(doneRes.e, gotE), "events: OnDone carries the returned error")
 		// ---- events (C16)
